@@ -356,7 +356,10 @@ fn datum_exchange(a: &Parsed, pa: &[usize], b: &Parsed, pb: &[usize], rng: &mut 
     for i in 0..upto {
         let (Some(sa), Some(sb)) = (pick_schema(a, pa, i), pick_schema(b, pb, i)) else { continue };
         let term = project(sa);
-        if !inhabited(&term, &env, &mut vec![]) || !inhabited(&project(sb), &env_b, &mut vec![]) {
+        // Exchange only between schemas that look alike in the projection (a difference there is
+        // already on record in `obs`); decoding bytes with an unrelated recursive schema can run the
+        // crate's decoder out of stack, which would take the harness down with it.
+        if project(sb) != term || env != env_b || !inhabited(&term, &env, &mut vec![]) {
             continue;
         }
         let v = match guarded(AssertUnwindSafe(|| value_gen(rng, &term, &env, 4))) {
